@@ -280,6 +280,12 @@ def make_callback(cb):
 
     if conv == "kw":
         def core_kw(intermediate_result):
+            if not hasattr(intermediate_result, "x"):
+                # invoked with a bare point although the signature asks for
+                # the keyword convention: record what actually happened
+                _cb_core(state, np.asarray(intermediate_result, dtype=float),
+                         None, "pos", intermediate_result)
+                return
             _cb_core(state, intermediate_result.x,
                      getattr(intermediate_result, "fun", None), "kw",
                      intermediate_result.x)
@@ -298,6 +304,9 @@ def make_callback(cb):
             f = core_kw
     else:
         def core_pos(xk):
+            if hasattr(xk, "x") and not isinstance(xk, np.ndarray):
+                _cb_core(state, xk.x, getattr(xk, "fun", None), "kw", xk.x)
+                return
             _cb_core(state, xk, None, "pos", xk)
         if form == "lambda":
             f = lambda xk: core_pos(xk)  # noqa: E731
